@@ -608,6 +608,10 @@ class Specifier(BaseSpecifier):
         yielded = False
         found_prereleases = []
 
+        # An explicit override stored on the specifier acts like the argument.
+        if prereleases is None:
+            prereleases = self._prereleases
+
         kw = {"prereleases": prereleases if prereleases is not None else True}
 
         # Attempt to iterate over all the values in the iterable and if any of
